@@ -166,6 +166,10 @@ class C27(Spec):
         case = {"type": tname, "ops": ops}
         if rng.random() < 0.12:
             case["subclass"] = True  # the object is an instance of a plain subclass of the type
+        if idx % 20000 == 777:
+            # launch-mode arm: a user module declaring its own fixeddict type,
+            # run in a fresh interpreter as a script / with -m / imported
+            case = {"type": tname, "ops": [], "launch": rng.choice(["-m", "script", "import", "-m"])}
         return case
 
     def shrink(self, case):
@@ -180,6 +184,8 @@ class C27(Spec):
 
     def execute(self, case):
         stats = Counter()
+        if case.get("launch"):
+            return self.execute_launch(case)
         cls = FD_TYPES.get(case["type"])
         events = [("case", case["type"], repr(case["ops"]), case.get("subclass"))]
         if cls is None:
@@ -321,6 +327,29 @@ class C27(Spec):
                     return viol("C27/type-changed/%s" % op, "after %s the object is a %s" % (op, type(d).__name__))
         return Outcome(OK, events, stats=stats, nontrivial=len(case["ops"]) >= 2, key=key, ticks=step + 1)
 
+    def execute_launch(self, case):
+        import os
+        import subprocess
+
+        from sim.core import PY, REPO, VERIF
+
+        mode = case["launch"]
+        env = dict(os.environ, PYTHONPATH=REPO + os.pathsep + VERIF, PYTHONHASHSEED="0")
+        env.pop("VERIF_NO_REEXEC", None)
+        if mode == "-m":
+            cmd = [PY, "-m", "sim.fd_probe"]
+        elif mode == "script":
+            cmd = [PY, os.path.join(VERIF, "sim", "fd_probe.py")]
+        else:
+            cmd = [PY, "-c", "import sys, sim.fd_probe as m; sys.exit(m.main())"]
+        p = subprocess.run(cmd, env=env, cwd=VERIF, stdout=subprocess.PIPE, stderr=subprocess.STDOUT, timeout=300)
+        out = p.stdout.decode(errors="replace").strip()
+        events = [("launch", mode, p.returncode, out[-200:])]
+        stats = Counter({"runs:launch-mode-arm": 1, "launch:" + mode: 1})
+        if p.returncode != 0 or not out.endswith("OK"):
+            return Outcome(VIOLATION, events, sig="C27/launch-mode/%s" % mode, detail="a module declaring its own fixeddict type, started as %r in a fresh interpreter: %s" % (mode, out[-600:]), stats=stats, nontrivial=True, key="launch|" + mode, ticks=1)
+        return Outcome(OK, events, stats=stats, nontrivial=True, key="launch|" + mode, ticks=1)
+
     def extra_evidence(self, merged):
         st = merged["stats"]
         return {"operations": {k[3:]: v for k, v in st.items() if k.startswith("op:")}, "types_covered": len(FD_NAMES)}
@@ -389,6 +418,31 @@ def m_bits(o):
     raise ValueError(k)
 
 
+# the interpreter's int<->str digit limit (PYTHONINTMAXSTRDIGITS; 4300 by
+# default, 0 = unlimited) is part of the environment the code under test runs
+# in: it is set to the case's value around every call into the library and to
+# unlimited for the harness's own formatting
+_INT_DIGITS = [0]
+
+
+def _limited(fn):
+    import functools
+    import sys as _s
+
+    @functools.wraps(fn)
+    def wrapper(*a, **kw):
+        if not _INT_DIGITS[0] or not hasattr(_s, "set_int_max_str_digits"):
+            return fn(*a, **kw)
+        _s.set_int_max_str_digits(_INT_DIGITS[0])
+        try:
+            return fn(*a, **kw)
+        finally:
+            _s.set_int_max_str_digits(0)
+
+    return wrapper
+
+
+@_limited
 def w_apply(w, o):
     k = o["op"]
     if k == "bit":
@@ -407,6 +461,7 @@ def w_apply(w, o):
         w.write_sint(o["v"])
 
 
+@_limited
 def r_apply(r, o):
     k = o["op"]
     if k == "bit":
@@ -425,6 +480,7 @@ def r_apply(r, o):
         return r.read_sint()
 
 
+@_limited
 def d_apply(state, o, bounded):
     """The validator's reader (decoder.io) on a State."""
     k = o["op"]
@@ -537,13 +593,13 @@ class C20(Spec):
             n = rng.choice([0, 1, 2, 3, 7, 8, 9, 16, 33])
             v = rng.randrange(1 << n) if n else 0
             if rng.random() < 0.12:
-                v = rng.choice([1 << n, -1, (1 << n) + 5])
+                v = rng.choice([1 << n, -1, (1 << n) + 5, 10 ** 5000])
             return {"op": k, "n": n, "v": v}
         if k == "uint_lit":
             n = rng.choice([0, 1, 2, 4])
             v = rng.randrange(1 << (8 * n)) if n else 0
             if rng.random() < 0.1:
-                v = rng.choice([1 << (8 * n), -1])
+                v = rng.choice([1 << (8 * n), -1, 10 ** 5000])
             return {"op": k, "n": n, "v": v}
         if k == "bitarray":
             n = rng.choice([0, 1, 3, 8, 13])
@@ -619,6 +675,7 @@ class C20(Spec):
             case["prefix"] = rng.choice([1, 2, 3, 5])
         if rng.random() < 0.5:
             case["ghost"] = True  # a second writer / reader instance used in alternation
+        case["int_digits"] = rng.choice([0, 0, 4300, 4300, 640])
         return case
 
     def shrink(self, case):
@@ -644,6 +701,7 @@ class C20(Spec):
 
         stats = Counter()
         events = [("case", repr(case))]
+        _INT_DIGITS[0] = case.get("int_digits", 0)
         npre = case.get("prefix", 0)
         junk = bytes((37 * i + 11) & 0xFF for i in range(npre))
         f = SimFile(junk)
